@@ -244,6 +244,9 @@ func (w *wal) flush(batch WALBatch) error {
 }
 
 func (w WALBatch) replay(fs *fileStore) error {
+	// the header may already be ahead of the log (CREATE TABLE consumes LSNs
+	// without logging); replay must never hand out older LSNs again
+	headerNextLSN := fs._nextLSN
 	for _, row := range w {
 		fs._nextLSN = row.LSN
 		node, err := fs.fetch(row.pageID)
@@ -283,5 +286,8 @@ func (w WALBatch) replay(fs *fileStore) error {
 	}
 
 	fs._nextLSN++
+	if fs._nextLSN < headerNextLSN {
+		fs._nextLSN = headerNextLSN
+	}
 	return fs.flushPages()
 }
